@@ -12,6 +12,7 @@ fn run_case(fam: &str, args: &[i128]) -> Vec<i128> {
     match fam {
         "bitmap" => bitmap::run(args),
         "grid" => grid::run(args),
+        "gridrec" => grid::run_rec(args),
         "seqapi" => seqapi::run(args),
         _ => panic!("unknown family {fam}"),
     }
